@@ -260,6 +260,91 @@ theorem linspace_last (a b : Rat) (n : Nat) (h : 2 ≤ n) :
   field_simp
   ring
 
+/-- **closed form for floats**: element `i` of `linspace(a, b, n)`, `n ≥ 2`, is
+`a + (b-a)·i/(n-1)` — the `i`-th of `n` equally spaced points on `[a, b]` -/
+theorem linspace_get_rat (a b : Rat) (n i : Nat) (h : 2 ≤ n) (hi : i < n) :
+    (linspace ratOps a b n).items[i]? = some (a + (b - a) * (i : Rat) / ((n : Rat) - 1)) := by
+  rw [linspace_get ratOps a b n i hi, linspace_step_rat a b n h]
+  congr 1
+  ring
+
+/-- **a single point is `a`**: `linspace(a, b, 1) = [a]` (step zero), and `n = 0` is empty -/
+theorem linspace_one_rat (a b : Rat) : (linspace ratOps a b 1).items = [a] := by
+  apply List.ext_getElem?
+  intro i
+  by_cases hi : i < 1
+  · have : i = 0 := by omega
+    subst this
+    rw [linspace_get ratOps a b 1 0 (by omega)]
+    simp [linspace]
+  · have hl := (linspace_len ratOps a b 1).1
+    rw [List.getElem?_eq_none (by omega), List.getElem?_eq_none (by simp; omega)]
+
+theorem linspace_zero_rat (a b : Rat) : (linspace ratOps a b 0).items = [] :=
+  List.eq_nil_of_length_eq_zero (linspace_len ratOps a b 0).1
+
+/-- **monotone and inside `[a, b]`**: for `a ≤ b` the points never decrease and none leaves the
+closed interval -/
+theorem linspace_mono_rat (a b : Rat) (n i j : Nat) (hab : a ≤ b) (hij : i ≤ j) (hj : j < n)
+    (x y : Rat) (hx : (linspace ratOps a b n).items[i]? = some x)
+    (hy : (linspace ratOps a b n).items[j]? = some y) : x ≤ y := by
+  rw [linspace_get ratOps a b n i (by omega)] at hx
+  rw [linspace_get ratOps a b n j hj] at hy
+  cases hx; cases hy
+  have hs : 0 ≤ (linspace ratOps a b n).step := by
+    by_cases h2 : 2 ≤ n
+    · rw [linspace_step_rat a b n h2]
+      have : (2 : Rat) ≤ (n : Rat) := by exact_mod_cast h2
+      exact div_nonneg (by linarith) (by linarith)
+    · have : ¬ n > 1 := by omega
+      simp [linspace, this]
+  have : ((i : Nat) : Rat) ≤ (j : Rat) := by exact_mod_cast hij
+  have := mul_le_mul_of_nonneg_left this hs
+  linarith
+
+theorem linspace_within_rat (a b : Rat) (n i : Nat) (hab : a ≤ b) (hi : i < n)
+    (x : Rat) (hx : (linspace ratOps a b n).items[i]? = some x) : a ≤ x ∧ x ≤ b := by
+  by_cases h2 : 2 ≤ n
+  · constructor
+    · have h0 := linspace_get ratOps a b n 0 (by omega)
+      refine linspace_mono_rat a b n 0 i hab (by omega) hi a x ?_ hx
+      rw [h0]; simp
+    · have hl := linspace_last a b n h2
+      have hlen := (linspace_len ratOps a b n).1
+      rw [List.getLast?_eq_getElem?, hlen] at hl
+      exact linspace_mono_rat a b n i (n - 1) hab (by omega) (by omega) x b hx hl
+  · have : n = 1 := by omega
+    subst this
+    have : i = 0 := by omega
+    subst this
+    rw [linspace_one_rat] at hx
+    simp at hx
+    subst hx
+    exact ⟨le_refl _, hab⟩
+
+/-- **integers**: the step is the truncated quotient `(b-a) / (n-1)` (Rust `/`), so element `i`
+is `a + ((b-a) tdiv (n-1))·i`; the last one is `b` exactly when `n-1` divides `b-a` -/
+theorem linspace_get_int (a b : Int) (n i : Nat) (h : 2 ≤ n) (hi : i < n) :
+    (linspace intOps a b n).items[i]? = some (a + (b - a).tdiv ((n - 1 : Nat) : Int) * (i : Int)) := by
+  rw [linspace_get intOps a b n i hi]
+  have : n > 1 := by omega
+  simp [linspace, intOps, this]
+
+theorem linspace_last_int (a b : Int) (n : Nat) (h : 2 ≤ n) (hd : ((n - 1 : Nat) : Int) ∣ b - a) :
+    (linspace intOps a b n).items.getLast? = some b := by
+  have hlen := (linspace_len intOps a b n).1
+  rw [List.getLast?_eq_getElem?, hlen, linspace_get_int a b n (n - 1) h (by omega)]
+  congr 1
+  have := Int.tdiv_mul_cancel hd
+  linarith
+
+/-- non-vacuity: the second of five points on `[1, 2]`, and an integer grid that ends on `b` -/
+example : (linspace ratOps 1 2 5).items[1]? = some (5 / 4) := by
+  rw [linspace_get_rat 1 2 5 1 (by omega) (by omega)]; norm_num
+
+example : (linspace intOps 3 11 5).items.getLast? = some 11 :=
+  linspace_last_int 3 11 5 (by omega) (by decide)
+
 /-- **Vec1Create::linspace, floats** equals the from-scratch definition, for every container -/
 theorem createLinspace_rat (c : Cont) (es : Nat) (a b : Rat) (n : Nat) (hcap : n * es ≤ isizeMax) :
     createLinspace ratOps c es a b n = .ok (linspaceRat a b n) := by
